@@ -168,7 +168,7 @@ class NumpyBackendProvider(BackendProvider):
             method = {'+': 'np.add.reduce', '*': 'np.multiply.reduce', '|': 'np.maximum.reduce', '&': 'np.minimum.reduce'}.get(op)
             if method is None:
                 return None
-            return f'{method}({arg_src})'
+            return f'{method}(_kg_list({arg_src}))'
 
         if node_type == 'scan':
             op, arg = ir[1], ir[2]
@@ -178,7 +178,7 @@ class NumpyBackendProvider(BackendProvider):
             method = {'+': 'np.cumsum', '*': 'np.cumprod'}.get(op)
             if method is None:
                 return None  # |\ and &\ not supported in numpy
-            return f'{method}({arg_src})'
+            return f'{method}(_kg_list({arg_src}), axis=0)'
 
         return None
 
